@@ -153,6 +153,32 @@ class SlotsReordered:
         pass
 
 
+class PlainBadHint:
+    """one annotation names something that does not exist at run time (a TYPE_CHECKING-only import): every public
+    attribute is still a field"""
+    a: typing.Any
+    b: "NotImportedAtRuntime"  # noqa: F821
+    c: typing.Any
+
+    def __init__(self):
+        pass
+
+
+class SlotsBadHint:
+    __slots__ = ("a", "b", "c")
+    a: typing.Any
+    b: "NotImportedAtRuntime"  # noqa: F821
+    c: typing.Any
+
+    def __init__(self):
+        pass
+
+
+class PlainBadHintSub(Plain):
+    """annotated base, the subclass adds a field whose annotation cannot be resolved"""
+    extra: "NotImportedAtRuntime"  # noqa: F821
+
+
 @dataclasses.dataclass
 class DCSub(DC):
     """a dataclass below a dataclass: inherited fields first"""
@@ -198,8 +224,9 @@ def case(draw):
         kind = draw(st.sampled_from(["dict", "OrderedDict", "MappingProxyType", "CustomMapping"]))
         return {"cat": cat, "kind": kind, "content": list(d.items())}
     if cat == "structured":
-        kind = draw(st.sampled_from(["DC", "DCFrozen", "DCSlots", "Plain", "SlotsOnly", "VarsOnly", "SlotsAnn", "SlotsAnnSub", "SlotsReordered", "DCSub", "DCMapNames", "SlotsMapNames"]))
-        n = {"DC": 3, "DCFrozen": 2, "DCSlots": 2, "Plain": 3, "SlotsOnly": 3, "VarsOnly": draw(st.integers(0, 3)),
+        kind = draw(st.sampled_from(["DC", "DCFrozen", "DCSlots", "Plain", "SlotsOnly", "VarsOnly", "SlotsAnn", "SlotsAnnSub", "SlotsReordered", "DCSub", "DCMapNames", "SlotsMapNames",
+                                     "PlainBadHint", "SlotsBadHint", "PlainBadHintSub"]))
+        n = {"PlainBadHint": 3, "SlotsBadHint": 3, "PlainBadHintSub": 3, "DC": 3, "DCFrozen": 2, "DCSlots": 2, "Plain": 3, "SlotsOnly": 3, "VarsOnly": draw(st.integers(0, 3)),
              "SlotsAnn": 2, "SlotsAnnSub": 3, "SlotsReordered": 2, "DCSub": 3, "DCMapNames": 3, "SlotsMapNames": 2}[kind]
         vals = [draw(st.one_of(two_elem, anyval)) for _ in range(n)]
         return {"cat": cat, "kind": kind, "content": vals}
@@ -275,6 +302,14 @@ def build(c):
             x = SlotsMapNames()
             x.items, x.get = v
             pairs = [("items", v[0]), ("get", v[1])]
+        elif kind in ("PlainBadHint", "SlotsBadHint"):
+            x = {"PlainBadHint": PlainBadHint, "SlotsBadHint": SlotsBadHint}[kind]()
+            x.a, x.b, x.c = v
+            pairs = [("a", v[0]), ("b", v[1]), ("c", v[2])]
+        elif kind == "PlainBadHintSub":
+            x = PlainBadHintSub()
+            x.first, x.second, x.extra = v
+            pairs = [("first", v[0]), ("second", v[1]), ("extra", v[2])]
         elif kind == "DCSub":
             x = DCSub(v[0], v[1], third=v[2])
             pairs = [("first", v[0]), ("second", v[1]), ("third", v[2])]
@@ -324,7 +359,7 @@ def build(c):
 def nontrivial(c, x):
     if c["cat"] == "empty" or c["kind"] in ("generator", "iter", "map"):
         return True
-    if c["cat"] == "namedtuple" or c["kind"] in ("DC", "Plain", "SlotsOnly", "VarsOnly", "SlotsAnn", "SlotsAnnSub", "SlotsReordered", "DCSub", "DCMapNames", "SlotsMapNames"):
+    if c["cat"] == "namedtuple" or c["kind"] in ("DC", "Plain", "SlotsOnly", "VarsOnly", "SlotsAnn", "SlotsAnnSub", "SlotsReordered", "DCSub", "DCMapNames", "SlotsMapNames", "PlainBadHint", "SlotsBadHint", "PlainBadHintSub"):
         return True
     content = c["content"]
     if c["cat"] in ("pairs", "mixed") and content:
